@@ -20,6 +20,8 @@
 #include <thread>
 #include <type_traits>
 
+#include <dispenso/detail/verif_hooks.h>
+
 #if defined(_MSC_VER) && \
     (defined(_M_AMD64) || defined(_M_IX86) || defined(_M_ARM64) || defined(_M_ARM))
 #include <intrin.h>
